@@ -12,7 +12,7 @@ def run(tier: str, seed: int, prop: str = "C05") -> int:
         # protocol after particular histories
         from . import sess
 
-        sess.run_lifecycle(rep, wd, tier, seed)
+        sess.run_lifecycle(rep, wd, tier, seed, aged=False)
         strace.run_traces(rep, wd, tier, seed)
         corrupt.replay(rep, codec.generate_corruptions(rep, wd, tier), seed)
         rep.rule = ("recorded receive histories of client and server sessions over streams with malformed units (complete envelopes with broken interiors, bad outer "
